@@ -94,10 +94,11 @@ class Check:
             if not o['ok']:
                 b['failed'] += 1
         ev['coverage'].update(self.extra)
-        os.makedirs(os.path.join(VERIF, 'evidence'), exist_ok=True)
-        with open(os.path.join(VERIF, 'evidence', self.pid + '.json'), 'w') as f:
-            json.dump(ev, f, indent=1)
-            f.write('\n')
+        if not os.environ.get('GSA_NO_EVIDENCE'):
+            os.makedirs(os.path.join(VERIF, 'evidence'), exist_ok=True)
+            with open(os.path.join(VERIF, 'evidence', self.pid + '.json'), 'w') as f:
+                json.dump(ev, f, indent=1)
+                f.write('\n')
         print('%s [%s]: %d obligations, %d discharged, %d known findings, %d violations (%.1fs)' % (
             self.pid, self.tier, len(self.obs), len(self.obs) - len(viol), len(known_hit), len(unknown), wall))
         for r, b in sorted(ev['coverage']['by_rule'].items()):
@@ -112,12 +113,13 @@ class Check:
             print('KNOWN-FINDING: property=%s %s [%s at %s]' % (self.pid, known_keys[o['key']]['what'], o['rule'],
                                                               o['where']))
         if unknown:
-            os.makedirs(os.path.join(VERIF, 'replay'), exist_ok=True)
+            rdir = os.environ.get('GSA_REPLAY_DIR') or os.path.join(VERIF, 'replay')
+            os.makedirs(rdir, exist_ok=True)
             for i, o in enumerate(unknown):
-                path = os.path.join(VERIF, 'replay', '%s.%d.json' % (self.pid, i))
+                path = os.path.join(rdir, '%s.%d.json' % (self.pid, i))
                 with open(path, 'w') as f:
                     json.dump({'property': self.pid, 'tier': self.tier, **o}, f, indent=1)
-                print('   %s: %s: %s -- %s' % (o['where'], o['rule'], o['instance'], o['detail']))
+                print('   %s: %s: %s -- %s [key %s]' % (o['where'], o['rule'], o['instance'], o['detail'], o['key']))
                 print('VIOLATION property=%s replay=%s' % (self.pid, path))
             return 1
         return 0
